@@ -98,11 +98,10 @@ Print Assumptions C03_match_plain.
 
 (* ---- result of an abstract node: the first node of an abstract / common rule, whatever
    terminals and match-rule nodes precede it and whatever follows *)
-Theorem C03_abstract_result : forall K r pre k post,
-  K r = KAbstract ->
-  (forall p, In p pre -> nonmatch_node K p = false) -> nonmatch_node K k = true ->
-  process K (TN r (pre ++ k :: post)) = process K k.
-Proof. exact abstract_first_nonmatch. Qed.
+Theorem C03_abstract_result : forall K r pre r' ks post,
+  K r = KAbstract -> (forall p, In p pre -> plain_node K p) -> K r' <> KMatch ->
+  process K (TN r (pre ++ TN r' ks :: post)) = process K (TN r' ks).
+Proof. exact abstract_first_nonmatch_kinds. Qed.
 Print Assumptions C03_abstract_result.
 
 Example C03_abstract_result_example :
